@@ -561,7 +561,7 @@ static void warm_up(void)
 static void child_main(char **lines, int nlines)
 {
 	int tr = 0; unsigned enf = 0;
-	alarm(60);
+	alarm(15);      /* a history takes milliseconds; a library call that does not return ends it (Exit by signal 14) */
 	if (nlines < 1 || sscanf(lines[0], "Up %d %u", &tr, &enf) < 1) { fprintf(stderr, "history does not start with Up\n"); exit(2); }
 	sendbuf = malloc(SENDMAX);
 	server_up(tr, enf);
@@ -592,7 +592,7 @@ int main(int argc, char **argv)
 	signal(SIGTERM, on_term); signal(SIGINT, on_term);
 	static char *lines[4096];
 	char raw[4096];
-	int n = 0, eof = 0, first = 1;
+	int n = 0, eof = 0, first = 1, abnormal = 0;
 	while (!eof) {
 		n = 0;
 		for (;;) {
@@ -621,6 +621,9 @@ int main(int argc, char **argv)
 		int kind = WIFEXITED(st) ? 0 : 1, code = WIFEXITED(st) ? WEXITSTATUS(st) : WTERMSIG(st);
 		vt_ev("Exit"); vt_res(); vt_i(kind); vt_i(code); vt_end();
 		for (int i = 0; i < n; i++) free(lines[i]);
+		/* histories that end by a signal (watchdog, crash) are rejected anyway: after three of them the rest of this
+		 * file is left to the driver's next round instead of waiting for the watchdog thousands of times */
+		if (kind == 1 && ++abnormal >= 3) break;
 	}
 	vt_close();
 	return 0;
